@@ -348,7 +348,7 @@ func NewSugarDB(options ...func(sugarDB *SugarDB)) (*SugarDB, error) {
 						wg.Add(1)
 						ctx := context.WithValue(context.Background(), "Database", database)
 						go func(ctx context.Context, wg *sync.WaitGroup) {
-							verifhook.Yield("ttl.evict")
+							verifhook.YieldL("ttl.evict", database)
 							if err := sugarDB.evictKeysWithExpiredTTL(ctx); err != nil {
 								log.Printf("evict with ttl: %v\n", err)
 							}
